@@ -53,6 +53,10 @@ def configs(tier: str):
             for t in (0, 1, 2):
                 for failures in ('raise', 'ignore'):
                     out.append(default_cfg(N=1, B=B, failures=failures, t=t, offset='sym' if t == 1 else 'zero', entry='solve_period', span_kind=kind))
+    # strict models
+    for B in (0, 1, 2):
+        for failures in ('raise', 'ignore'):
+            out.append(default_cfg(N=1, B=B, failures=failures, t=1, offset='sym', strict=True))
     # hooks that WRITE: the pre-solution hook stores a value into a check variable, the post-solution hook into another
     for B in (1, 2) if tier == 'quick' else (0, 1, 2, 3):
         for N in (1, 2):
